@@ -460,12 +460,55 @@ def run_sim(spec):
     }
 
 
+def run_profile(spec):
+    """Location profile of one op run alone in this (fresh) process: for every distinct (code object, line) of repo code the op
+    executes, the index of the event at which it is executed for the first and for the last time.  A fault planned at such an
+    index lands at that location: abort points can then be enumerated by *where* they are instead of drawn by *when*, so that a
+    line executed once (a recovery path) is hit as surely as one executed a thousand times (the lexer loop)."""
+    import sys as _sys
+    mon = _sys.monitoring
+    from .sched import NO_SWITCH_NAMES, TOOL
+    prefixes = tuple(resolve_scope(['repo']))
+    cache = {}
+    first, last = {}, {}
+    n = [0]
+
+    def cb(code, line):
+        sc = cache.get(code)
+        if sc is None:
+            sc = cache[code] = code.co_filename.startswith(prefixes) and code.co_name not in NO_SWITCH_NAMES
+        if not sc:
+            return mon.DISABLE
+        n[0] += 1
+        k = (code, line)
+        if k not in first:
+            first[k] = n[0]
+        last[k] = n[0]
+
+    env = O.Env(corpus()['catalogs'], 'op', 'op')
+    mon.use_tool_id(TOOL, 'dsim-profile')
+    mon.register_callback(TOOL, mon.events.LINE, cb)
+    mon.set_events(TOOL, mon.events.LINE)
+    try:
+        try:
+            O.run_op(spec['op'], env)
+        except BaseException:  # noqa
+            pass
+    finally:
+        mon.set_events(TOOL, 0)
+        mon.register_callback(TOOL, mon.events.LINE, None)
+        mon.free_tool_id(TOOL)
+    return {'firsts': sorted(first.values()), 'lasts': sorted(set(last.values()) - set(first.values())), 'n': n[0]}
+
+
 def dispatch(spec):
     kind = spec.get('cmd', 'sim')
     if kind == 'focus_list':
         return {'fns': pick_focus(spec), 'wf': find_write_functions(spec) if spec.get('want_wf') else None}
     if kind == 'ref':
         return run_ref(spec)
+    if kind == 'profile':
+        return run_profile(spec)
     if kind == 'sim':
         return run_sim(spec)
     if kind == 'c12':
